@@ -77,6 +77,7 @@ type zvC08Desc struct {
 	Comms   []uint32
 	Cluster []uint32
 	Orig    uint32
+	PathID  uint32 // identifier the path was learned with (add-path RX on the session it came from)
 }
 
 const (
@@ -100,6 +101,9 @@ func zvC08Descs(cfg zvC08Cfg) []zvC08Desc {
 		{Name: "noadv", EBGP: true, Src: [4]byte{10, 2, 0, 1}, NH: [4]byte{10, 2, 0, 1}, BGPID: 0x0a020001, LP: 100, ASNs: []uint32{65102}, Comms: []uint32{65000<<16 | 7, types.WellKnownCommunityNoAdvertise}},
 		{Name: "static", Static: true, NH: [4]byte{10, 9, 0, 1}},
 	}
+	// two of the paths were learned over add-path sessions and carry the identifier they were received with
+	// (what the session under test makes of it is its own business; the Loc-RIB withdraws them with it)
+	ds[zvC08EbgpX].PathID, ds[zvC08NoExport].PathID = 3, 7
 	if cfg.Reflected {
 		ds[zvC08IbgpY].Cluster = []uint32{0x07070707}
 		ds[zvC08IbgpY].Orig = 0x0a050005
@@ -118,6 +122,7 @@ func (d zvC08Desc) real() *route.Path {
 		ASPath:   &types.ASPath{{Type: types.ASSequence, ASNs: append([]uint32{}, d.ASNs...)}},
 	}}
 	p.BGPPath.ASPathLen = uint16(len(d.ASNs))
+	p.BGPPath.PathIdentifier = d.PathID
 	if d.Comms != nil {
 		c := types.Communities(append([]uint32{}, d.Comms...))
 		p.BGPPath.Communities = &c
